@@ -140,4 +140,310 @@ theorem getDigits_spec : ∀ (fuel coef i : Nat), i < fuel → coef < 10 ^ (i + 
         rename_i hge
         omega
 
+/-! ### the parser -/
+
+/-- `FromStr` after the sign -/
+def parseBody (sign : Int) (s1 : List Char) : Option Dnum :=
+  match getCoef s1 with
+  | none => none
+  | some (s2, coef, exp) =>
+    let (e, s3) := getExp s2
+    let exp := exp + e
+    if s3 ≠ [] then none
+    else if coef = 0 ∨ exp < -128 then some zero
+    else if exp > 127 then some (inf sign)
+    else some ⟨coef, sign, exp⟩
+
+theorem fromChars_pos (c : Char) (r : List Char) (h1 : c ≠ '-') (h2 : c ≠ '+') (h3 : c ≠ 'i') :
+    fromChars (c :: r) = parseBody 1 (c :: r) := by
+  have hs : getSign (c :: r) = (1, c :: r) := by
+    unfold getSign; split <;> simp_all
+  simp only [fromChars, hs]
+  split
+  · simp_all
+  · rfl
+
+theorem fromChars_neg (c : Char) (r : List Char) (h3 : c ≠ 'i') :
+    fromChars ('-' :: c :: r) = parseBody (-1) (c :: r) := by
+  have hs : getSign ('-' :: c :: r) = (-1, c :: r) := rfl
+  simp only [fromChars, hs]
+  split
+  · simp_all
+  · rfl
+
+theorem parseBody_of (sign : Int) (s1 s2 : List Char) (coef : Nat) (exp e : Int)
+    (hg : getCoef s1 = some (s2, coef, exp)) (he : getExp s2 = (e, []))
+    (hc : coef ≠ 0) (h1 : -128 ≤ exp + e) (h2 : exp + e ≤ 127) :
+    parseBody sign s1 = some ⟨coef, sign, exp + e⟩ := by
+  simp only [parseBody, hg, he]
+  simp only [ne_eq, not_true_eq_false, if_false, hc, false_or]
+  rw [if_neg (by omega), if_neg (by omega)]
+
+theorem isDigit_ne {c : Char} (h : isDigit c = true) :
+    c ≠ '.' ∧ c ≠ 'e' ∧ c ≠ 'E' ∧ c ≠ '-' ∧ c ≠ '+' ∧ c ≠ 'i' := by
+  refine ⟨?_, ?_, ?_, ?_, ?_, ?_⟩ <;> (intro hh; subst hh; revert h; decide)
+
+theorem dropZeros_nz (c : Char) (r : List Char) (h : c ≠ '0') : dropZeros (c :: r) = (c :: r, 0) := by
+  unfold dropZeros; split <;> simp_all
+
+theorem dropZeros_zeros : ∀ (k : Nat) (c : Char) (r : List Char), c ≠ '0' →
+    dropZeros (zeros k ++ c :: r) = (c :: r, k)
+  | 0, c, r, h => by simpa [zeros] using dropZeros_nz c r h
+  | k + 1, c, r, h => by
+    have : zeros (k + 1) ++ c :: r = '0' :: (zeros k ++ c :: r) := rfl
+    rw [this]
+    simp only [dropZeros, dropZeros_zeros k c r h]
+
+/-- `getCoef` on text starting with a non-zero digit -/
+theorem getCoef_nz (c : Char) (r : List Char) (hd : isDigit c = true) (hnz : c ≠ '0') :
+    getCoef (c :: r) =
+      (if !(coefLoop (c :: r) 0 0 15 false true).2.2.2 then none
+       else some ((coefLoop (c :: r) 0 0 15 false true).1, (coefLoop (c :: r) 0 0 15 false true).2.1,
+         (coefLoop (c :: r) 0 0 15 false true).2.2.1)) := by
+  have hdot := (isDigit_ne hd).1
+  simp only [getCoef, dropZeros_nz c r hnz]
+  split
+  · simp_all
+  · simp
+
+/-- `getCoef` on `.000ddd` -/
+theorem getCoef_point (k : Nat) (c : Char) (r : List Char) (hd : isDigit c = true) (hnz : c ≠ '0')
+    (hr : AllDig r) :
+    getCoef ('.' :: (zeros k ++ c :: r)) = some ([], dval (c :: r) 15, -(k : Int)) := by
+  have hne : zeros k ++ c :: r ≠ [] := by simp
+  have hdz : dropZeros ('.' :: (zeros k ++ c :: r)) = ('.' :: (zeros k ++ c :: r), 0) :=
+    dropZeros_nz _ _ (by decide)
+  have hall : AllDig (c :: r) := by
+    intro x hx
+    rcases List.mem_cons.1 hx with h | h
+    · rw [h]; exact hd
+    · exact hr x h
+  have hap := afterPoint_digits (c :: r) [] 0 (0 - (k : Int)) 15 (decide (k > 0)) hall
+  simp only [List.append_nil] at hap
+  have hcl : coefLoop ('.' :: (zeros k ++ c :: r)) 0 0 15 false true
+      = ([], 0 + dval (c :: r) 15, 0 - (k : Int), true) := by
+    have hnd : isDigit '.' = false := by decide
+    simp only [coefLoop, hnd, Bool.false_eq_true, if_false, if_true, Bool.not_false,
+      dropZeros_zeros k c r hnz, Int.sub_self]
+    rw [hap]
+    simp [coefLoop.afterPoint]
+  obtain ⟨x, t, hxt⟩ : ∃ x t, zeros k ++ c :: r = x :: t := by
+    cases k with
+    | zero => exact ⟨c, r, rfl⟩
+    | succ k => exact ⟨'0', zeros k ++ c :: r, rfl⟩
+  simp only [getCoef, hdz]
+  split
+  · simp only [hcl]; simp
+  · rename_i hno
+    exact absurd (by rw [hxt]) (hno x t)
+
+theorem coefLoop_point (t : List Char) (n : Nat) (e p : Int) :
+    coefLoop ('.' :: t) n e p true true = coefLoop.afterPoint t n (15 - p) p true := by
+  have hnd : isDigit '.' = false := by decide
+  simp [coefLoop, hnd]
+
+theorem coefLoop_e (t : List Char) (n : Nat) (e p : Int) (dg : Bool) :
+    coefLoop ('e' :: t) n e p dg true = ('e' :: t, n, 15 - p, dg) := by
+  have hnd : isDigit 'e' = false := by decide
+  simp [coefLoop, hnd]
+
+theorem afterPoint_e (t : List Char) (n : Nat) (e p : Int) (dg : Bool) :
+    coefLoop.afterPoint ('e' :: t) n e p dg = ('e' :: t, n, e, dg) := by
+  have hnd : isDigit 'e' = false := by decide
+  simp [coefLoop.afterPoint, hnd]
+
+set_option maxRecDepth 4000 in
+theorem getExp_int_a : ∀ n : Nat, n < 128 →
+    getExp ('e' :: intToChars ((n : Int) - 129)) = ((n : Int) - 129, []) := by decide
+
+set_option maxRecDepth 4000 in
+theorem getExp_int_b : ∀ n : Nat, n < 128 →
+    getExp ('e' :: intToChars ((n : Int) - 1)) = ((n : Int) - 1, []) := by decide
+
+/-- the exponent text written by `String` (−129 … 126) is read back by `getExp` -/
+theorem getExp_int (x : Int) (h1 : -129 ≤ x) (h2 : x ≤ 126) :
+    getExp ('e' :: intToChars x) = (x, []) := by
+  by_cases h : x < -1
+  · have := getExp_int_a (x + 129).toNat (by omega)
+    have e : (((x + 129).toNat : Nat) : Int) - 129 = x := by omega
+    rw [e] at this; exact this
+  · have := getExp_int_b (x + 1).toNat (by omega)
+    have e : (((x + 1).toNat : Nat) : Int) - 1 = x := by omega
+    rw [e] at this; exact this
+
+/-- `String` after the sign -/
+def bodyChars (coef : Nat) (exp : Int) : List Char :=
+  let digits := getDigits 16 coef 15
+  let nd : Int := digits.length
+  let e : Int := exp - nd
+  if -7 ≤ exp ∧ exp ≤ 0 then '.' :: (zeros (-e - nd).toNat ++ digits)
+  else if -nd < e ∧ e ≤ -1 then digits.take (nd + e).toNat ++ '.' :: digits.drop (nd + e).toNat
+  else if 0 < exp ∧ exp ≤ 16 then digits ++ zeros e.toNat
+  else digits.take 1 ++ ((if nd > 1 then '.' :: digits.drop 1 else []) ++ 'e' :: intToChars (exp - 1))
+
+theorem toChars_eq (coef : Nat) (sign exp : Int) (hs : sign = 1 ∨ sign = -1) :
+    toChars ⟨coef, sign, exp⟩ = (if sign < 0 then ['-'] else []) ++ bodyChars coef exp := by
+  have h0 : ¬ sign = 0 := by omega
+  have hi : isInf ⟨coef, sign, exp⟩ = false := by rcases hs with rfl | rfl <;> rfl
+  simp only [toChars, bodyChars, h0, hi, if_false, Bool.false_eq_true]
+  repeat' split
+  all_goals simp [List.append_assoc]
+
+theorem getExp_nil : getExp [] = (0, []) := rfl
+
+theorem coefLoop_nil (n : Nat) (e p : Int) (dg : Bool) : coefLoop [] n e p dg true = ([], n, 15 - p, dg) := by
+  simp [coefLoop]
+
+theorem afterPoint_nil (n : Nat) (e p : Int) (dg : Bool) :
+    coefLoop.afterPoint [] n e p dg = ([], n, e, dg) := by
+  simp [coefLoop.afterPoint]
+
+/-- the text of a finite normalised decimal starts with `.` or a non-zero digit, and parses back -/
+theorem body_parse (sg : Int) (coef : Nat) (exp : Int) (c1 : 10 ^ 15 ≤ coef) (c2 : coef < 10 ^ 16)
+    (h1 : -128 ≤ exp) (h2 : exp ≤ 127) :
+    (∃ c r, bodyChars coef exp = c :: r ∧ c ≠ '-' ∧ c ≠ '+' ∧ c ≠ 'i') ∧
+    parseBody sg (bodyChars coef exp) = some ⟨coef, sg, exp⟩ := by
+  obtain ⟨g1, g2, g3, g4⟩ := getDigits_spec 16 coef 15 (by omega) (by omega) (by omega)
+  obtain ⟨c, r, hds, hcnz, hcd⟩ := g4 c1
+  simp only [bodyChars]
+  rw [hds] at g1 g2 g3 ⊢
+  obtain ⟨_, hr⟩ := AllDig_cons g1
+  obtain ⟨n1, n2, n3, n4, n5, n6⟩ := isDigit_ne hcd
+  have hc0 : coef ≠ 0 := by omega
+  simp only [List.length_cons] at g3 ⊢
+  have g2' : dval (c :: r) 15 = coef := g2
+  by_cases f1 : -7 ≤ exp ∧ exp ≤ 0
+  · -- .000ddd
+    rw [if_pos f1]
+    refine ⟨⟨_, _, rfl, by decide, by decide, by decide⟩, ?_⟩
+    have hk : ((-(exp - ((r.length + 1 : Nat) : Int)) - ((r.length + 1 : Nat) : Int)).toNat : Int) = -exp := by
+      omega
+    generalize (-(exp - ((r.length + 1 : Nat) : Int)) - ((r.length + 1 : Nat) : Int)).toNat = k at *
+    have := parseBody_of sg _ _ _ _ 0 (getCoef_point k c r hcd hcnz hr) getExp_nil
+      (by rw [g2']; exact hc0) (by omega) (by omega)
+    rw [this, g2']
+    simp only [Option.some.injEq, Dnum.mk.injEq, true_and]; omega
+  · rw [if_neg f1]
+    by_cases f2 : -((r.length + 1 : Nat) : Int) < exp - ((r.length + 1 : Nat) : Int) ∧
+        exp - ((r.length + 1 : Nat) : Int) ≤ -1
+    · -- dd.ddd
+      rw [if_pos f2]
+      have hdec : (((r.length + 1 : Nat) : Int) + (exp - ((r.length + 1 : Nat) : Int))).toNat = exp.toNat := by
+        congr 1; omega
+      rw [hdec]
+      obtain ⟨m, hm⟩ : ∃ m, exp.toNat = m + 1 := ⟨exp.toNat - 1, by omega⟩
+      have htk : (c :: r).take exp.toNat = c :: r.take m := by rw [hm]; rfl
+      have hlen : ((c :: r).take exp.toNat).length = exp.toNat := by
+        rw [List.length_take, List.length_cons]; omega
+      refine ⟨⟨c, r.take m ++ '.' :: (c :: r).drop exp.toNat, by rw [htk]; rfl, n4, n5, n6⟩, ?_⟩
+      have hcl : coefLoop ((c :: r).take exp.toNat ++ '.' :: (c :: r).drop exp.toNat) 0 0 15 false true
+          = ([], coef, exp, true) := by
+        rw [coefLoop_digits _ _ _ _ _ _ (AllDig_take _ g1)]
+        have : (false || !((c :: r).take exp.toNat).isEmpty) = true := by rw [htk]; rfl
+        rw [this, coefLoop_point]
+        have := afterPoint_digits ((c :: r).drop exp.toNat) [] (0 + dval ((c :: r).take exp.toNat) 15)
+          (15 - (15 - (((c :: r).take exp.toNat).length : Int))) (15 - (((c :: r).take exp.toNat).length : Int)) true
+          (AllDig_drop _ g1)
+        rw [List.append_nil] at this
+        rw [this, afterPoint_nil]
+        have hv := dval_append ((c :: r).take exp.toNat) ((c :: r).drop exp.toNat) 15
+        rw [List.take_append_drop, g2'] at hv
+        rw [hlen] at hv ⊢
+        simp only [Prod.mk.injEq, true_and, Bool.true_or, and_true]
+        omega
+      have hgc : getCoef ((c :: r).take exp.toNat ++ '.' :: (c :: r).drop exp.toNat)
+          = some ([], coef, exp) := by
+        have := getCoef_nz c (r.take m ++ '.' :: (c :: r).drop exp.toNat) hcd hcnz
+        rw [htk] at hcl ⊢
+        rw [List.cons_append] at hcl ⊢
+        rw [this, hcl]; rfl
+      have := parseBody_of sg _ _ _ _ 0 hgc getExp_nil hc0 (by omega) (by omega)
+      rw [this, Int.add_zero]
+    · rw [if_neg f2]
+      by_cases f3 : 0 < exp ∧ exp ≤ 16
+      · -- ddd000
+        rw [if_pos f3]
+        refine ⟨⟨c, r ++ zeros _, rfl, n4, n5, n6⟩, ?_⟩
+        have hz : (((exp - ((r.length + 1 : Nat) : Int)).toNat : Nat) : Int) = exp - ((r.length + 1 : Nat) : Int) := by
+          omega
+        generalize (exp - ((r.length + 1 : Nat) : Int)).toNat = z at *
+        have hall : AllDig ((c :: r) ++ zeros z) := AllDig_append g1 (AllDig_zeros z)
+        have hcl : coefLoop ((c :: r) ++ zeros z) 0 0 15 false true = ([], coef, exp, true) := by
+          have := coefLoop_digits ((c :: r) ++ zeros z) [] 0 0 15 false hall
+          rw [List.append_nil] at this
+          rw [this, coefLoop_nil, dval_append, dval_zeros, g2']
+          simp only [List.length_append, List.length_cons, zeros, List.length_replicate, Prod.mk.injEq,
+            true_and]
+          refine ⟨by omega, by push_cast; omega, by simp⟩
+        have hgc : getCoef ((c :: r) ++ zeros z) = some ([], coef, exp) := by
+          have := getCoef_nz c (r ++ zeros z) hcd hcnz
+          rw [List.cons_append] at hcl ⊢
+          rw [this, hcl]; rfl
+        have := parseBody_of sg _ _ _ _ 0 hgc getExp_nil hc0 (by omega) (by omega)
+        rw [this, Int.add_zero]
+      · -- d.ddde±x
+        rw [if_neg f3]
+        have htk : (c :: r).take 1 = [c] := rfl
+        have hdr : (c :: r).drop 1 = r := rfl
+        rw [htk, hdr]
+        refine ⟨⟨c, _, rfl, n4, n5, n6⟩, ?_⟩
+        have hge := getExp_int (exp - 1) (by omega) (by omega)
+        generalize intToChars (exp - 1) = E at *
+        have hcl : coefLoop ([c] ++ ((if ((r.length + 1 : Nat) : Int) > 1 then '.' :: r else []) ++ 'e' :: E))
+            0 0 15 false true = ('e' :: E, coef, 1, true) := by
+          have hc1 : AllDig [c] := fun x hx => by
+            rw [List.mem_singleton] at hx; rw [hx]; exact hcd
+          rw [coefLoop_digits [c] _ _ _ _ _ hc1]
+          have hv := dval_append [c] r 15
+          have : [c] ++ r = c :: r := rfl
+          rw [this, g2'] at hv
+          by_cases hnd : ((r.length + 1 : Nat) : Int) > 1
+          · rw [if_pos hnd]
+            simp only [List.cons_append, List.length_singleton, List.isEmpty_cons, Bool.not_false,
+              Bool.or_true]
+            rw [coefLoop_point, afterPoint_digits r _ _ _ _ _ hr, afterPoint_e]
+            simp only [Prod.mk.injEq, true_and, Bool.true_or, and_true]
+            simp only [List.length_singleton] at hv
+            exact ⟨by omega, by omega⟩
+          · rw [if_neg hnd]
+            have hr0 : r = [] := by
+              cases r with
+              | nil => rfl
+              | cons a b => simp only [List.length_cons] at hnd; omega
+            subst hr0
+            simp only [List.nil_append, List.length_singleton, List.isEmpty_cons, Bool.not_false,
+              Bool.or_true]
+            rw [coefLoop_e]
+            simp only [Prod.mk.injEq, true_and, and_true]
+            simp only [dval] at hv
+            simp only [dval]
+            exact ⟨by omega, by omega⟩
+        have hgc : getCoef ([c] ++ ((if ((r.length + 1 : Nat) : Int) > 1 then '.' :: r else []) ++ 'e' :: E))
+            = some ('e' :: E, coef, 1) := by
+          have := getCoef_nz c ((if ((r.length + 1 : Nat) : Int) > 1 then '.' :: r else []) ++ 'e' :: E) hcd hcnz
+          rw [List.singleton_append] at hcl ⊢
+          rw [this, hcl]; rfl
+        have := parseBody_of sg _ _ _ _ (exp - 1) hgc hge hc0 (by omega) (by omega)
+        rw [this]; simp only [Option.some.injEq, Dnum.mk.injEq, true_and]; omega
+
+/-- string_roundtrip on finite normalised decimals -/
+theorem roundtrip_finite (d : Dnum) (hw : WF d) (h1 : -128 ≤ d.exp) (h2 : d.exp ≤ 127) :
+    fromChars (toChars d) = some d := by
+  obtain ⟨coef, sign, exp⟩ := d
+  obtain ⟨hs, c1, c2⟩ := hw
+  simp only at hs c1 c2 h1 h2
+  rw [toChars_eq coef sign exp hs]
+  obtain ⟨⟨c, r, hb, n1, n2, n3⟩, hp⟩ := body_parse sign coef exp c1 c2 h1 h2
+  rcases hs with rfl | rfl
+  · simp only [show ¬ ((1 : Int) < 0) by decide, if_false, List.nil_append]
+    rw [hb, fromChars_pos c r n1 n2 n3, ← hb]; exact hp
+  · simp only [show ((-1 : Int) < 0) by decide, if_true]
+    rw [hb]
+    show fromChars ('-' :: c :: r) = _
+    rw [fromChars_neg c r n3, ← hb]; exact hp
+
+theorem roundtrip_special :
+    fromChars (toChars zero) = some zero ∧ fromChars (toChars posInf) = some posInf ∧
+    fromChars (toChars negInf) = some negInf := by decide
+
 end Gsu.Dnum
